@@ -182,6 +182,20 @@ def run(ctx):
                             viol.append({"history_hex": [first.hex()], "history": [first.decode("latin-1")], "input_hex": probe.hex(), "input": probe.decode("latin-1"),
                                          "what": "outcome depends on history: after a use of %s %s, `%s %s` gives %s; in a pristine interpreter %s" % (
                                              da["name"], tag, db["name"], tag, a[:80], alone[:80])})
+    # loading a parsed script into a FiltersSet must use THAT script, whatever was parsed (by another object) in between
+    from sievelib.factory import FiltersSet
+    A = b'require ["fileinto", "copy"];\n# Filter: one\nif anyof (header :is "Subject" "x") {\n    fileinto :copy "F";\n}\n'
+    for B in [b"keep;", b'require ["envelope"]; if envelope :is "from" "a" { stop; }', b"if true {", b'require "imap4flags"; addflag "x";', b""]:
+        pa, pb = Parser(), Parser()
+        pa.parse(A)
+        pb.parse(B)
+        fsx = FiltersSet("t")
+        fsx.from_parser_result(pa)
+        evals += 1
+        nontriv += 1
+        if sorted(fsx.requires) != ["copy", "fileinto"] or [f["name"] for f in fsx.filters] != ["one"]:
+            viol.append({"history_hex": [A.hex(), B.hex()], "history": [A.decode(), B.decode()], "what": "a FiltersSet loaded from a parsed script depends on what another "
+                         "Parser parsed in between: requires %r, filters %r" % (fsx.requires, [f["name"] for f in fsx.filters])})
     # pristine-interpreter comparison for a sample of scripts (guards the in-process reference itself)
     sample = r.sample(pool, 25 if ctx.tier == "quick" else 200)
     pr = pristine_parse(sample)
